@@ -59,7 +59,7 @@ def run_harness(ctx, exe, lines, timeout=150, max_restarts=30, args=()):
         if k >= len(lines):
             incidents.append((len(lines) - 1, "exit-status-%s-after-last-case" % rc, err[-2500:]))
             break
-        kind = "TIMEOUT" if rc == 124 else "CRASH"
+        kind = "TIMEOUT" if rc in (124, -14, 142) else "CRASH"       # 124: batch limit, SIGALRM: the harness' limit per case
         outs[k] = kind
         incidents.append((k, kind, sanitizer_summary(err)))
         start = k + 1
@@ -80,8 +80,19 @@ def sanitizer_summary(err):
     return " | ".join(keep[:12]) if keep else err[-600:]
 
 
+NO_MODEL = "<no-model>"
+
+
 def run_model(ctx, name, lines, timeout=600):
-    exe = ctx.model(name)
+    """outputs of the extracted model; if the model no longer builds (e.g. a generated definition is gone) the tie
+    is reported broken once and every output is NO_MODEL, so that the search for a failing input still runs"""
+    try:
+        exe = ctx.model(name)
+    except vlib.BuildError as e:
+        if not getattr(ctx, "_model_build_reported", False):
+            ctx._model_build_reported = True
+            ctx.tie_broken("%s model build (generated definitions do not extract/compile)" % name, str(e)[-1200:])
+        return [NO_MODEL] * len(lines)
     rc, out, err = ctx.run_lines([exe], "\n".join(lines) + "\n", timeout=timeout)
     out = out[:-1] if out and out[-1] == "" else out
     if rc != 0:
